@@ -235,7 +235,7 @@ Qed.
 Definition rel (v' v d : R) : Prop := Rabs (v' - v) <= d * v.
 
 Lemma rel_exact : forall v, 0 <= v -> rel v v (0 * E52).
-Proof. intros v Hv. unfold rel. rewrite Rminus_diag, Rabs_R0. lra. Qed.
+Proof. intros v Hv. unfold rel. replace (v - v) with 0 by ring. rewrite Rabs_R0. lra. Qed.
 
 Lemma E52_bounds : 0 < E52 < / 1000000000000000.
 Proof. unfold E52. lra. Qed.
@@ -263,10 +263,12 @@ Lemma rel_rnd : forall v' v k, 0 <= k <= 100 -> TINY <= v -> rel v' v (k * E52) 
 Proof.
   intros v' v k Hk Hv H.
   assert (HT : 0 < TINY) by (unfold TINY; lra).
-  assert (Hb := rel_bounds v' v k Hk ltac:(lra) H).
+  assert (Hv0 : 0 < v) by lra.
+  assert (Hb := rel_bounds v' v k Hk Hv0 H).
   assert (Hr := rnd64_rel v').
   rewrite (Rabs_pos_eq v') in Hr by lra.
-  specialize (Hr ltac:(lra)).
+  assert (Hv1 : TINY / 2 <= v') by lra.
+  specialize (Hr Hv1).
   unfold rel in *. apply Rabs_le_inv in H. apply Rabs_le_inv in Hr.
   assert (HE := E52_bounds).
   assert (Hv' : v' <= v * (1 + k * E52)) by lra.
@@ -301,7 +303,9 @@ Proof.
   { apply Rmult_le_compat; try apply Rabs_pos; lra. }
   assert (P4 : da * db <= E52).
   { unfold da, db. replace (ka * E52 * (kb * E52)) with ((ka * kb * E52) * E52) by ring.
-    rewrite <- (Rmult_1_l E52) at 3. apply Rmult_le_compat_r; [lra|]. nra. }
+    rewrite <- (Rmult_1_l E52) at 3. apply Rmult_le_compat_r; [lra|].
+    assert (Hkk : ka * kb <= 2500) by nra.
+    assert (ka * kb * E52 <= 2500 * E52) by (apply Rmult_le_compat_r; lra). lra. }
   assert (Hab : 0 < a * b) by (apply Rmult_lt_0_compat; lra).
   assert (P5 : da * a * (db * b) <= E52 * (a * b)).
   { replace (da * a * (db * b)) with (da * db * (a * b)) by ring.
@@ -335,18 +339,23 @@ Proof.
 Qed.
 
 Lemma approx_mul : forall A B a' a b' b ka kb k,
-  0 <= ka <= 50 -> 0 <= kb <= 50 -> k = ka + kb + 2 ->
+  0 <= ka <= 45 -> 0 <= kb <= 45 -> k = ka + kb + 2 ->
   approx A a' a ka -> approx B b' b kb -> 0 < a -> 0 < b -> TINY <= a * b <= 2 ->
   approx (dmul A B) (rnd64 (a' * b')) (a * b) k.
 Proof.
   intros A B a' a b' b ka kb k Hka Hkb -> [FA [VA RA]] [FB [VB RB]] Ha Hb Hab.
-  assert (R1 := rel_mul a' a b' b ka kb Hka Hkb Ha Hb RA RB).
-  assert (R2 := rel_rnd _ _ _ ltac:(lra) (proj1 Hab) R1).
+  assert (Hka' : 0 <= ka <= 50) by lra. assert (Hkb' : 0 <= kb <= 50) by lra.
+  assert (R1 := rel_mul a' a b' b ka kb Hka' Hkb' Ha Hb RA RB).
+  assert (HT : 0 < TINY) by (unfold TINY; lra).
+  assert (K1 : 0 <= ka + kb + 1 <= 100) by lra.
+  assert (R2 := rel_rnd (a' * b') (a * b) (ka + kb + 1) K1 (proj1 Hab) R1).
   replace (ka + kb + 1 + 1) with (ka + kb + 2) in R2 by ring.
-  assert (Hbd := rel_bounds _ _ _ ltac:(lra) ltac:(unfold TINY in Hab; lra) R2).
+  assert (K2 : 0 <= ka + kb + 2 <= 100) by lra.
+  assert (K3 : 0 < a * b) by lra.
+  assert (Hbd := rel_bounds _ (a * b) (ka + kb + 2) K2 K3 R2).
   destruct (dmul_correct A B FA FB) as [V F].
   - rewrite VA, VB. apply Rlt_trans with 8; [|exact MAXD_gt_8].
-    apply Rabs_lt. unfold TINY in Hab. lra.
+    apply Rabs_lt. lra.
   - rewrite VA, VB in V. repeat split; assumption.
 Qed.
 
@@ -356,12 +365,17 @@ Lemma approx_add : forall A B a' a b' b ka kb k,
   approx (dadd A B) (rnd64 (a' + b')) (a + b) k.
 Proof.
   intros A B a' a b' b ka kb k Hka Hkb Hk1 Hk2 Hk3 [FA [VA RA]] [FB [VB RB]] Ha Hb Hab.
-  assert (RA' := rel_weaken _ _ _ (k - 1) ltac:(lra) Hk1 RA).
-  assert (RB' := rel_weaken _ _ _ (k - 1) ltac:(lra) Hk2 RB).
-  assert (R1 := rel_add _ _ _ _ _ ltac:(lra) ltac:(lra) RA' RB').
-  assert (R2 := rel_rnd _ _ _ ltac:(lra) (proj1 Hab) R1).
+  assert (HT : 0 < TINY) by (unfold TINY; lra).
+  assert (Ha0 : 0 <= a) by lra. assert (Hb0 : 0 <= b) by lra.
+  assert (RA' := rel_weaken a' a ka (k - 1) Ha0 Hk1 RA).
+  assert (RB' := rel_weaken b' b kb (k - 1) Hb0 Hk2 RB).
+  assert (R1 := rel_add a' a b' b (k - 1) Ha0 Hb0 RA' RB').
+  assert (K1 : 0 <= k - 1 <= 100) by lra.
+  assert (R2 := rel_rnd (a' + b') (a + b) (k - 1) K1 (proj1 Hab) R1).
   replace (k - 1 + 1) with k in R2 by ring.
-  assert (Hbd := rel_bounds _ _ _ ltac:(lra) ltac:(lra) R2).
+  assert (K2 : 0 <= k <= 100) by lra.
+  assert (K3 : 0 < a + b) by lra.
+  assert (Hbd := rel_bounds _ (a + b) k K2 K3 R2).
   destruct (dadd_correct A B FA FB) as [V F].
   - rewrite VA, VB. apply Rlt_trans with 8; [|exact MAXD_gt_8].
     apply Rabs_lt. lra.
@@ -382,7 +396,7 @@ Proof.
   set (d := Digits.Zdigits radix2 (Z.pos m)) in *.
   change (Z.abs (Z.pos m)) with (Z.pos m) in Hd.
   unfold SpecFloat.fexp, SpecFloat.emin, prec, emax in H1, H2.
-  rewrite !Zpower_Zpower in Hd by lia. simpl (radix_val radix2) in Hd.
+  change (radix_val radix2) with 2%Z in Hd.
   destruct (Z.max_spec (d + e - 24) (3 - 128 - 24)) as [[Ha Hb]|[Ha Hb]];
     rewrite Hb in H1.
   - (* e = -149 *)
@@ -402,8 +416,8 @@ Lemma to_bits_pos : forall m e H,
 Proof.
   intros m e H. destruct (bounded_cases m e H) as [H1 [H2 H3]].
   unfold to_bits, enc. destruct (Z.ltb_spec (Z.pos m) 8388608) as [Hlt|Hge].
-  - destruct H3 as [H3|H3]; [|lia]. subst e. f_equal. lia.
-  - f_equal. lia.
+  - destruct H3 as [H3|H3]; [|lia]. subst e. f_equal; lia.
+  - f_equal; lia.
 Qed.
 
 (** comparing with a normal threshold [mt * 2^et] *)
